@@ -215,6 +215,41 @@ func (f *c02Fault) what() string {
 	return ""
 }
 
+// c02ExpiryFault: the expiry job of short-lived token p fails at its at-th operation on p's records.
+type c02ExpiryFault struct {
+	p  *c02Tok
+	at int
+	f  *c02Fault
+}
+
+func (e *c02ExpiryFault) sel() func(kit.Event) bool {
+	p := e.p
+	return func(ev kit.Event) bool { return ev.Tag == "" && p.Keys.owns(ev.Key) }
+}
+
+// suspendExpiryFaults / resumeExpiryFaults bracket a seal cycle: the lease restoration after an
+// unseal reads the same records, and a storage error there makes the core seal itself again
+// (by design), which is not what these faults are for.
+func (x *c02Run) suspendExpiryFaults() {
+	for _, e := range x.expiry {
+		e.f.disarm()
+	}
+}
+
+func (x *c02Run) resumeExpiryFaults() {
+	if len(x.expiry) == 0 {
+		return
+	}
+	for i := 0; i < 400 && x.v.Core.expiration.inRestoreMode(); i++ { // bounded; not a verdict
+		time.Sleep(5 * time.Millisecond)
+	}
+	for _, e := range x.expiry {
+		if e.f.fired.Load() == 0 && !x.v.Core.expiration.inRestoreMode() {
+			e.f = x.arm(e.sel(), e.at, false)
+		}
+	}
+}
+
 // revocationOps selects the storage operations of a revocation of p: everything the
 // revoking request does, and every untagged (worker) operation on p's own records.
 func c02RevocationOps(p *c02Tok) func(e kit.Event) bool {
@@ -357,7 +392,9 @@ func (x *c02Run) batchFamily(ns, nsTag string, all []string) {
 		}
 		if cut {
 			p.Kind = "expired-unreaped"
-			x.arm(func(e kit.Event) bool { return e.Tag == "" && p.Keys.owns(e.Key) }, 1+rng.Intn(12), false)
+			e := &c02ExpiryFault{p: p, at: 1 + rng.Intn(12)}
+			e.f = x.arm(e.sel(), e.at, false)
+			x.expiry = append(x.expiry, e)
 			r.Count("world_expiry_faults_armed", 1)
 		}
 	}
